@@ -845,6 +845,36 @@ ab
 <*>b
 ''')
 
+# --- REJECT at per-rule action sites, fixed trailing context (no '|' sharing) --------
+E('h_tc_both', 'histtc', r'''
+%%
+ab/c
+abc
+[a-c]+
+[a-c]
+''')
+
+E('h_tc_vh', 'histtc', r'''
+%%
+a+/b
+ab
+[ab]
+''')
+
+E('h_tc_vt', 'histtc', r'''
+%%
+a/b+
+abb
+[ab]
+''')
+
+E('h_tc_eol', 'histtc', r'''
+%%
+a+$
+a\n
+a
+''')
+
 # --- 'rule cannot be matched' situations ------------------------------------------
 E('w_shadow', 'warn e1', r'''
 %%
